@@ -1,6 +1,7 @@
 package main
 
 import (
+	"context"
 	"crypto/ecdsa"
 	"crypto/elliptic"
 	crand "crypto/rand"
@@ -13,6 +14,7 @@ import (
 	"math/big"
 	"math/rand"
 	"net"
+	"net/http"
 	"strconv"
 	"strings"
 	"sync"
@@ -20,6 +22,7 @@ import (
 
 	xmpp "gosrc.io/xmpp"
 	"gosrc.io/xmpp/stanza"
+	"nhooyr.io/websocket"
 )
 
 // C03 / C04 / C11: the real Client.connect (TCP dial, STARTTLS with run-time minted certificates, SASL, resume or
@@ -378,6 +381,105 @@ func opMap(fields []string) map[string]string {
 	return m
 }
 
+// wsConn: Client.connect over a plain ws:// WebSocket transport against an in-process server that answers every step
+// it is asked for (open, features with PLAIN, success, open, features, bind result) and records what it receives.
+func wsConn(insecure bool) string {
+	var mu sync.Mutex
+	var seen []string
+	rec := func(k string) { mu.Lock(); seen = append(seen, k+":0"); mu.Unlock() }
+	mux := http.NewServeMux()
+	done := make(chan struct{})
+	mux.HandleFunc("/", func(w http.ResponseWriter, r *http.Request) {
+		defer close(done)
+		conn, err := websocket.Accept(w, r, &websocket.AcceptOptions{Subprotocols: []string{"xmpp"}})
+		if err != nil {
+			return
+		}
+		defer conn.Close(websocket.StatusNormalClosure, "")
+		ctx, cancel := context.WithTimeout(context.Background(), 8*time.Second)
+		defer cancel()
+		authDone := false
+		for {
+			_, data, err := conn.Read(ctx)
+			if err != nil {
+				return
+			}
+			s := string(data)
+			wr := func(x string) { conn.Write(ctx, websocket.MessageText, []byte(x)) }
+			switch {
+			case strings.HasPrefix(s, "<open"):
+				rec("open")
+				wr(`<open xmlns="urn:ietf:params:xml:ns:xmpp-framing" id="ws1" from="localhost" version="1.0"/>`)
+				if !authDone {
+					wr("<stream:features xmlns:stream='http://etherx.jabber.org/streams'><mechanisms xmlns='urn:ietf:params:xml:ns:xmpp-sasl'><mechanism>PLAIN</mechanism></mechanisms></stream:features>")
+				} else {
+					wr("<stream:features xmlns:stream='http://etherx.jabber.org/streams'><bind xmlns='urn:ietf:params:xml:ns:xmpp-bind'/></stream:features>")
+				}
+			case strings.HasPrefix(s, "<auth"):
+				rec("auth")
+				authDone = true
+				wr("<success xmlns='urn:ietf:params:xml:ns:xmpp-sasl'/>")
+			case strings.HasPrefix(s, "<iq"):
+				rec("bind")
+				id := "x"
+				if i := strings.Index(s, `id="`); i >= 0 {
+					id = s[i+4 : i+4+strings.Index(s[i+4:], `"`)]
+				}
+				wr("<iq xmlns='jabber:client' type='result' id='" + id + "'><bind xmlns='urn:ietf:params:xml:ns:xmpp-bind'><jid>test@localhost/res</jid></bind></iq>")
+			case strings.HasPrefix(s, "<close"):
+				return
+			}
+		}
+	})
+	ln, err := net.Listen("tcp", "127.0.0.1:0")
+	if err != nil {
+		return "listen-failed"
+	}
+	srv := &http.Server{Handler: mux}
+	go srv.Serve(ln)
+	defer srv.Close()
+	cfg := &xmpp.Config{
+		TransportConfiguration: xmpp.TransportConfiguration{Address: "ws://" + ln.Addr().String() + "/", Domain: "localhost"},
+		Jid:                    "test@localhost/res", Credential: xmpp.Password("secret"), Insecure: insecure, ConnectTimeout: 2,
+	}
+	client, err := xmpp.NewClient(cfg, xmpp.NewRouter(), func(error) {})
+	if err != nil {
+		return "newclient:" + err.Error()
+	}
+	res := make(chan error, 1)
+	go func() {
+		defer func() {
+			if r := recover(); r != nil {
+				res <- fmt.Errorf("panic: %v", r)
+			}
+		}()
+		res <- xmpp.VerifClientConnect(client)
+	}()
+	out := "hang"
+	select {
+	case e := <-res:
+		switch {
+		case e == nil:
+			out = "established"
+		case strings.HasPrefix(e.Error(), "panic:"):
+			out = "panic"
+		default:
+			out = "failed:" + strconv.FormatBool(xmpp.VerifIsPermanent(e))
+		}
+	case <-time.After(10 * time.Second):
+	}
+	if out == "established" {
+		xmpp.VerifTransport(client).Close()
+	}
+	select {
+	case <-done:
+	case <-time.After(2 * time.Second):
+	}
+	mu.Lock()
+	defer mu.Unlock()
+	return "out=" + out + " w=" + strings.Join(seen, ",")
+}
+
 func (np negProp) Exec(c Case) []string {
 	v := opMap(c.Variant)
 	cfg := &xmpp.Config{
@@ -398,6 +500,8 @@ func (np negProp) Exec(c Case) []string {
 	var obs []string
 	for i, op := range c.Ops {
 		switch op[0] {
+		case "wsconn":
+			obs = append(obs, wsConn(cfg.Insecure))
 		case "setinbound":
 			n, _ := strconv.Atoi(op[1])
 			if client.Session != nil {
@@ -634,6 +738,16 @@ func (np negProp) Generate(rng *rand.Rand, tier string, st *Stats) []Case {
 	}
 	st.Exhaustive = true
 	st.Note("every single-step deviation (all reply classes of all 14 script fields) from every happy path: insecure x sm-requested x starttls-offered x session-mandatory x sm-advertised x resumable-state")
+
+	// the same gate on the WebSocket transport (plain ws://: no STARTTLS, never secure)
+	if np.id == "C04" || np.id == "C03" {
+		for _, insecure := range bools {
+			for _, sm := range bools {
+				mk(insecure, sm, []string{"wsconn"})
+				st.Inc("websocket_gate")
+			}
+		}
+	}
 
 	// TLS matrix (C04): client settings x certificate classes x STARTTLS behaviour
 	if np.id != "C11" {
